@@ -1,8 +1,10 @@
 (* C07: the flavours of one mapping agree - owned / by-reference, fallible / infallible, into / into_existing. *)
 From Coq Require Import List String Ascii Bool Arith.
 From O2o.Model Require Import Tok Syn Attr Ast Lookup Expand.
+From O2o.Gen Require Import Skeleton.
 From O2o.Lemmas Require Import Designated.
 Import ListNotations.
+Open Scope string_scope.
 Open Scope list_scope.
 
 Definition set_kind (c : ictx) (k : kind) : ictx :=
@@ -144,3 +146,23 @@ Example index_rename_disagrees :
               fv_attr := Some (AField {| mc_ty := None; mc_member := Some (MIndex 1); mc_action := None |}) |} in
   place_positional f 0 = Ok (MIndex 1).
 Proof. reflexivity. Qed.
+
+(* ---- the order of the statement holes in the Into-side bodies (Gen/Skeleton.v is regenerated from the quote! blocks) ---- *)
+Fixpoint stok_holes (t : stok) : list string :=
+  match t with
+  | SH h => [h]
+  | SG _ l => (fix go (l : list stok) : list string := match l with [] => [] | x :: r => stok_holes x ++ go r end) l
+  | _ => []
+  end.
+Definition statement_holes (l : list stok) : list string :=
+  filter (fun h => String.eqb h "pre_init" || String.eqb h "init" || String.eqb h "post_init") (flat_map stok_holes l).
+
+(* every Into-side flavour runs vars, then the struct's own assignments, then the flattened #[parent] conversions *)
+Theorem statement_order :
+  statement_holes sk_into_body_post = ["pre_init"; "init"; "post_init"] /\
+  statement_holes sk_try_into_body_post = ["pre_init"; "init"; "post_init"] /\
+  statement_holes sk_into_existing = ["pre_init"; "init"; "post_init"] /\
+  statement_holes sk_try_into_existing = ["pre_init"; "init"; "post_init"] /\
+  statement_holes sk_into_body_plain = ["pre_init"; "init"] /\
+  statement_holes sk_try_into_body_plain = ["pre_init"; "init"].
+Proof. vm_compute. repeat split; reflexivity. Qed.
